@@ -464,8 +464,26 @@ class Evaluator:
                 return f(self.num(l), self.num(r))
             except ZeroDivisionError:
                 raise Raises('ZeroDivisionError')
-        if isinstance(e, ast.Tuple):
+        if isinstance(e, (ast.Tuple, ast.List)):
             return tuple(self.ev(x, env, owner, kind) for x in e.elts)
+        if isinstance(e, (ast.GeneratorExp, ast.ListComp, ast.SetComp)):
+            # a comprehension over a concrete tuple / stream of values
+            if len(e.generators) != 1 or not isinstance(e.generators[0].target, ast.Name):
+                raise Unsupported(f'comprehension {ast.unparse(e)[:60]}')
+            g = e.generators[0]
+            src = self.ev(g.iter, env, owner, kind)
+            vals = src.vals if isinstance(src, Stream) else src
+            if not isinstance(vals, (tuple, list, frozenset)):
+                raise Unsupported(f'comprehension over {src!r}')
+            out = []
+            for item in vals:
+                env2 = dict(env)
+                env2[g.target.id] = item
+                if all(self.truth(self.ev(c, env2, owner, kind)) for c in g.ifs):
+                    out.append(self.ev(e.elt, env2, owner, kind))
+            if isinstance(src, Stream):
+                return Stream(out)
+            return frozenset(out) if isinstance(e, ast.SetComp) else tuple(out)
         if isinstance(e, ast.Call):
             return self.evcall(e, env, owner, kind)
         raise Unsupported(f'expression {ast.unparse(e)[:60]}')
